@@ -57,7 +57,7 @@ func defaultCfg(spec *HarnessSpec, tier string) *Config {
 		cfg.Timeout = 120 * time.Second
 	}
 	if tier == "thorough" {
-		cfg.QueryTimeout = 30000
+		cfg.QueryTimeout = 60000
 	}
 	if cfg.MaxSteps == 0 {
 		cfg.MaxSteps = 20_000_000
